@@ -412,7 +412,7 @@ def _eval_gifti(col, case):
                                  datatype="NIFTI_TYPE_FLOAT32"),
             gifti.GiftiDataArray(ta, intent="NIFTI_INTENT_TRIANGLE",
                                  datatype="NIFTI_TYPE_INT32")])
-        src = os.path.join(d, "m.surf.gii")
+        src = os.path.join(d, case.get("src_name", "m.surf.gii"))
         nibabel.save(img, src)
         ds = os.path.join(d, "ds")
         os.makedirs(ds)
@@ -455,7 +455,8 @@ def _eval_gifti(col, case):
                           eff_dir, None if info is None else info.get("mesh"))
         from neuroglancer_scripts import accessor, mesh
         acc = accessor.get_accessor_for_url(ds)
-        name = case["name"] or "m.surf"
+        # default fragment name = input file name without its last suffix
+        name = case["name"] or case.get("src_name", "m.surf.gii")[:-4]
         try:
             buf = acc.fetch_file(eff_dir + "/" + name)
             rv, rt = mesh.read_precomputed_mesh(io.BytesIO(buf))
@@ -577,6 +578,12 @@ def gifti_cases():
                                 "mesh_dir": mesh_dir,
                                 "name": "frag1" if tr is ident else None,
                                 "opts": opts})
+    # default fragment names for input names ending in characters of ".gii"
+    for src_name in ("ctx_seg.gii", "hippocampi.gii", "a.g.i.gii",
+                     "lh.pial.gii", "gii.gii", "x..gii"):
+        out.append({"kind": "gifti", "mesh": "tetra", "transform": None,
+                    "info_mesh": None, "mesh_dir": None, "name": None,
+                    "opts": [], "src_name": src_name})
     return out
 
 
